@@ -21,6 +21,68 @@ let parse_op (s : string) : op =
     OShow (n_of_int (int_of_string c), { sv_chunks = chunks_of ch; sv_err = e; sv_url = opt_bytes url })
   | _ -> failwith ("bad op " ^ s)
 
+(* ---- file sets of the template calculus: a token stream, see harness/cmd/h_render/tcalc.go *)
+let parse_shown ch e url : shown =
+  let e = if e = "-" then None else Some (n_of_int (int_of_string e)) in
+  { sv_chunks = chunks_of ch; sv_err = e; sv_url = opt_bytes url }
+
+let parse_fileset (s : string) =
+  let toks = ref (List.filter (fun t -> t <> "") (String.split_on_char ' ' s)) in
+  let next () = match !toks with [] -> failwith "eof" | t :: r -> toks := r; t in
+  let int () = int_of_string (next ()) in
+  let nat () = nat_of_int (int ()) in
+  let num () = n_of_int (int ()) in
+  let opt () = let i = int () in if i < 0 then None else Some (n_of_int i) in
+  let expect t = let x = next () in if x <> t then failwith ("expected " ^ t ^ " got " ^ x) in
+  let rec times k f = if k <= 0 then [] else let x = f () in x :: times (k - 1) f in
+  let arg () = match next () with
+    | "v" -> AVal (num ())
+    | "p" -> AParam (nat ())
+    | t -> failwith ("arg " ^ t) in
+  let exp () = match next () with
+    | "v" -> EVal (num ())
+    | "p" -> EParam (nat ())
+    | "r" -> ERender (num ())
+    | "c" -> let a = opt () in let name = num () in let k = int () in ECall (a, name, times k arg)
+    | t -> failwith ("exp " ^ t) in
+  let node () = match next () with
+    | "T" -> let h = next () in let u = next () in let st = next () in
+      SText (bytes_of_hex (String.sub h 1 (String.length h - 1)), b01 u, b01 st)
+    | "S" -> let c = num () in SShow (c, exp ())
+    | "V" -> let c = num () in SVarShow (c, exp ())
+    | t -> failwith ("node " ^ t) in
+  let nodes () = let k = int () in times k node in
+  let import () = expect "I"; let p = num () in let a = opt () in
+    let k = int () in
+    let fl = if k < 0 then None else Some (times k num) in
+    { i_path = p; i_alias = a; i_for = fl } in
+  let macro () = expect "M"; let name = num () in let f = num () in let np = nat () in let r = b01 (next ()) in
+    let b = nodes () in
+    { m_name = name; m_fmt = f; m_nparams = np; m_rec = r; m_body = b } in
+  let file () = expect "F"; let p = num () in let f = num () in let ext = opt () in let r = b01 (next ()) in
+    let ni = int () in let imps = times ni import in
+    let nm = int () in let ms = times nm macro in
+    let b = nodes () in
+    (p, { f_fmt = f; f_extends = ext; f_imports = imps; f_macros = ms; f_rec = r; f_body = b }) in
+  let n = int () in
+  times n file
+
+let parse_vals (s : string) : n -> n -> shown =
+  let tbl = Hashtbl.create 64 in
+  List.iter (fun e ->
+    match String.split_on_char ':' e with
+    | [id; c; ch; er; url] -> Hashtbl.replace tbl (int_of_string id, int_of_string c) (parse_shown ch er url)
+    | _ -> failwith ("bad val " ^ e)) (split ';' s);
+  fun id c -> match Hashtbl.find_opt tbl (int_of_n id, int_of_n c) with
+    | Some v -> v
+    | None -> { sv_chunks = []; sv_err = Some (n_of_int 998); sv_url = None }
+
+let run_result_s = function
+  | RunNil -> "nil"
+  | RunErr e -> "e" ^ string_of_int (int_of_n e)
+  | RunHostPanic (Some e) -> "hostpanic:e" ^ string_of_int (int_of_n e)
+  | RunHostPanic None -> "hostpanic:none"
+
 let script_s (sc : act list) : string =
   String.concat "." (List.map (function AWrite c -> "x" ^ hex_of_bytes c | AFault -> "FAULT") sc)
 
@@ -37,6 +99,12 @@ let handle (f : string list) : string =
     let (st, ws, rs) = go r0 w0 (List.map parse_op (split ';' ops)) [] in
     "st=" ^ (match st with Some s -> st_s s | None -> "-") ^ " calls=" ^ string_of_int (int_of_n ws.w_calls)
     ^ " out=" ^ chunks_s ws.w_out ^ " res=" ^ String.concat "," (List.map res_s rs)
+  | ["tc"; fail_at; conv; main; vals; fset] ->
+    let w = writer_of (int_of_string fail_at) in
+    let cv = if conv = "1" then Some harness_conv else None in
+    (match build_and_run (parse_vals vals) (parse_fileset fset) cv (nat_of_int 40) (n_of_int (int_of_string main)) w with
+     | None -> "nolower"
+     | Some (ws, r) -> "calls=" ^ string_of_int (int_of_n ws.w_calls) ^ " out=" ^ chunks_s ws.w_out ^ " res=" ^ run_result_s r)
   | ["pathEscape"; q; h] -> script_s (pathEscape (b01 q) (bytes_of_hex h))
   | ["queryEscape"; h] -> script_s (queryEscape (bytes_of_hex h))
   | ["pe_q"; h] -> "ok:" ^ hex_of_bytes (path_escape_quoted_bytes (bytes_of_hex h))
